@@ -60,6 +60,12 @@ def judge_c02(sh, ci, case, ref, ctx):
             probs.append("bad_node")
         if not probs:
             t = sem.to_tree(nodes)
+            if c.get("cost"):
+                # under the cost flag the fields hold totals; whether they add up and are minimal is C04's business
+                t, ok = oracle.uncost(t)
+                if not ok:
+                    sh.count("not_judged_cost_fields")
+                    continue
             if t not in Tset:
                 if ref.capped or ref.cyclic:
                     sh.inconclusive += 1
@@ -281,9 +287,9 @@ def _worker(args):
 
 PARAMS = {
     # pid: (configs, quick(shards, grammars, maxlen, inputs), thorough(...), rule, floor)
-    "C02": (cfgs(recs=(0, 1), amodes=(2, 1)), (16, 60, 10, 14), (192, 90, 14, 24),
+    "C02": (cfgs(costs=(0, 1), recs=(0, 1), amodes=(2, 1)), (16, 60, 10, 14), (192, 90, 14, 24),
             "sentences of pool/random/mutated accepted grammars with random translation specs (permuted, partial, "
-            "NIL-padded, pass-through, empty, `# -'), one_parse=1, cost=0, lookahead 0..2, recovery on/off, with and "
+            "NIL-padded, pass-through, empty, `# -'), one_parse=1, cost flag off and on, lookahead 0..2, recovery on/off, with and "
             "without parse_free; the dumped tree must be a member of the reference translation set. Non-trivial = "
             "distinct (grammar,input,configuration) whose grammar has a permuted/partial/NIL-padded translation or a "
             "pass-through of a nullable symbol and whose tree has >=3 nodes.", 300),
